@@ -605,5 +605,6 @@ class EmptySigmaDetections(SigmaDetections):
     condition: list[str] = field(default_factory=list)
 
     def __post_init__(self: Self) -> None:
-        # Skip all checks and initializations
-        pass
+        # Skip all checks and initializations. There are no conditions: conversion and validation of
+        # a rule that carries this placeholder iterate over an empty list instead of failing.
+        self.parsed_condition = []
